@@ -20,6 +20,22 @@ Conventions
   population fails); the repaired `dryoc_mlock` therefore calls `munlock` on
   its failure path (`Cfg.undo`, `false` only in the counter-model).
 
+RUNTIME RECORD vs TYPE STATE.  A region (`Obj`) carries TWO descriptions of its state: `st`, the type-level one
+(`Protected<A, PM, LM>` or a bare container), and `rcd`, the runtime record `d.lm` / `d.pm` of `int::InternalData`.
+Every transition writes the record exactly where the Rust does (after the system call: `old.pm = …`, `old.lm = …`;
+`new_with` initialises it to `(Unlocked, ReadWrite)`), and `Drop` / `Zeroize` (`objDrop`, `protDrop`, `protZeroize`)
+consult the RECORD only, in the order of the Rust: `mprotect_readwrite` if the record is not `ReadWrite`, wipe the
+bytes, `munlock` if the record is `Locked`, then the container's drop (`deallocate` wipes the whole capacity).
+That the record always equals the type state is a THEOREM (`C14.rec_tracks_type`), not a modelling decision.
+
+TOKENS BEYOND THE TYPE-STATE API.  `zeroize` is the public `Zeroize::zeroize(&mut self)`, with its real effect in
+every type state (`opZeroize`); `clonefrom:<j>` the default `Clone::clone_from`; `panicdrop` a drop during unwinding;
+`stacklock` is `StackByteArray::mlock()`; `serde:<json|bincode>:<n>` the `Deserialize` impls of the locked forms
+(`bytes_serde.rs`).
+
+GHOST LOGS.  `Kernel.al` / `Kernel.fr` record every `(base page, size)` passed through `alloc` / `dealloc`; nothing
+reads them (they exist for `C15.alloc_release_balance_pairs`).
+
 WHAT CAN FAIL.  The only fallible system call of this model is `mlock` (`dryocMlock` returns a
 `Bool`: refused by the oracle, or failing in the kernel on `PROT_NONE` pages).  Every other wrapper
 is INFALLIBLE here: `dryocMunlock` and `dryocMprotect` return no status, so the tokens `unlock`,
@@ -56,11 +72,16 @@ structure Kernel where
   perm : Nat → Perm
   locked : Nat → Bool
   brk : Nat
+  /-- GHOST (never read by the model): every block handed out by `allocate` since the start of the run, as
+  `(base page, size)`, in order -/
+  al : List (Nat × Nat) := []
+  /-- GHOST: every block given back to `deallocate`, as `(base page, size)`, in order -/
+  fr : List (Nat × Nat) := []
 
 /-- first page index ever handed out (page 0 is never mapped) -/
 def startPage : Nat := 1
 
-def Kernel.init : Kernel := ⟨fun _ => .rw, fun _ => false, startPage⟩
+def Kernel.init : Kernel := ⟨fun _ => .rw, fun _ => false, startPage, [], []⟩
 
 def setRange {α : Type} (f : Nat → α) (lo hi : Nat) (x : α) : Nat → α :=
   fun i => if lo ≤ i ∧ i < hi then x else f i
@@ -157,12 +178,15 @@ def wipeN (n : Nat) (b : Bytes) : Bytes := zeros (min n b.length) ++ b.drop n
 /-- overwrite `[lo, hi)` with zeroes -/
 def setZeros (b : Bytes) (lo hi : Nat) : Bytes := b.take lo ++ zeros (hi - lo) ++ b.drop hi
 
+/-- overwrite `[lo, hi)` with the byte `x` -/
+def setFill (b : Bytes) (lo hi : Nat) (x : UInt8) : Bytes := b.take lo ++ List.replicate (hi - lo) x ++ b.drop hi
+
 /-- `PageAlignedAllocator::allocate(Layout(size))`, `size > 0`; returns the base page -/
 def alloc (c : Cfg) (m : Mach) (size : Nat) : Mach × Nat :=
   let P := c.P
   let base := m.k.brk
   let a := base * P
-  let k0 : Kernel := { m.k with brk := base + (pageRound P size + 2 * P) / P }
+  let k0 : Kernel := { m.k with brk := base + (pageRound P size + 2 * P) / P, al := m.k.al ++ [(base, size)] }
   let k1 := mprotect P k0 a P .none
   let k2 := mprotect P k1 (a + (P + pageRound P size)) P .none
   let k3 := mprotect P k2 (a + P) size .rw
@@ -177,7 +201,7 @@ def dealloc (c : Cfg) (m : Mach) (v : PVec) : Mach :=
   let a := p - P
   let k2 := mprotect P k1 a P .rw
   let k3 := mprotect P k2 (a + (P + pageRound P v.cap)) P .rw
-  { m with k := k3, rel := m.rel ++ [(v.cap, nonzero (buf.take v.cap))] }
+  { m with k := { k3 with fr := k3.fr ++ [(v.base, v.cap)] }, rel := m.rel ++ [(v.cap, nonzero (buf.take v.cap))] }
 
 /-- `Drop for Vec` -/
 def vecDrop (c : Cfg) (m : Mach) (v : PVec) : Mach :=
@@ -186,15 +210,15 @@ def vecDrop (c : Cfg) (m : Mach) (v : PVec) : Mach :=
 /-- `RawVec::grow_amortized` for `u8` -/
 def growCap (cap n : Nat) : Nat := max (max (2 * cap) n) 8
 
-/-- `Vec::resize(n, 0)` -/
-def vecResize (c : Cfg) (m : Mach) (v : PVec) (n : Nat) : Mach × PVec :=
+/-- `Vec::resize(n, b)` (fill byte `b`, `0` everywhere in the crate's own calls) -/
+def vecResize (c : Cfg) (m : Mach) (v : PVec) (n : Nat) (b : UInt8 := 0) : Mach × PVec :=
   if n ≤ v.len then (m, { v with len := n })
-  else if n ≤ v.cap then (m, { v with len := n, buf := setZeros v.buf v.len n })
+  else if n ≤ v.cap then (m, { v with len := n, buf := setFill v.buf v.len n b })
   else
     let ncap := growCap v.cap n
     let r := alloc c m ncap
     let nbuf := (v.buf ++ zeros ncap).take ncap
-    (vecDrop c r.1 v, ⟨r.2, ncap, n, setZeros nbuf v.len n⟩)
+    (vecDrop c r.1 v, ⟨r.2, ncap, n, setFill nbuf v.len n b⟩)
 
 /-- `Vec::clone` (`to_vec_in`: capacity = length) -/
 def vecClone (c : Cfg) (m : Mach) (v : PVec) : Mach × PVec :=
@@ -237,36 +261,65 @@ inductive St where
   | prot (lm : LM) (pm : PM)
   deriving DecidableEq, Repr
 
+/-- the record of a freshly wrapped container: `Protected::new_with(a)` sets `lm: Unlocked, pm: ReadWrite` -/
+def recNew : LM × PM := (.unlocked, .rw)
+
+/-- A region as the harness holds it.  `st` is the TYPE-LEVEL state (`Protected<A, PM, LM>` / a bare container);
+`rcd` is the RUNTIME record `d.lm` / `d.pm` of `int::InternalData`, a separate piece of data: every transition writes
+it AFTER its system call succeeded (`old.pm = int::ProtectMode::ReadOnly;` …) and `Drop` / `Zeroize` read IT, not the
+type.  For a bare container (`st = .plain`) there is no record yet; the field is then meaningless and is (re)initialised
+by `new_with` when the container is wrapped. -/
 structure Obj where
   st : St
   v : PVec
+  rcd : LM × PM := recNew
 
 /-- `Drop for HeapBytes/HeapByteArray` (derived `ZeroizeOnDrop`, then `Vec` drop) -/
 def plainDrop (c : Cfg) (m : Mach) (v : PVec) : Mach := vecDrop c m (zeroizeV v)
 
-/-- `Drop for Protected` with the *internal* modes `lm`, `pm`, followed by the drop of the container -/
-def protDrop (c : Cfg) (m : Mach) (v : PVec) (lm : LM) (pm : PM) : Mach :=
-  let m1 := if pm = .rw then m else dryocMprotect c m (ptr c v) v.len .rw
-  let m2 := if lm = .locked then dryocMunlock c m1 (ptr c v) v.len else m1
-  plainDrop c m2 v
+/-- the machine at the moment `d.a.zeroize()` runs inside `Zeroize for Protected`, i.e. after
+`if d.pm != ReadWrite { dryoc_mprotect_readwrite(..) }` (`pm` = the RECORDED protect mode) -/
+def protAtWipe (c : Cfg) (m : Mach) (v : PVec) (pm : PM) : Mach :=
+  if pm = .rw then m else dryocMprotect c m (ptr c v) v.len .rw
 
+/-- `Zeroize for Protected` with the RECORDED modes `lm`, `pm`, in the order of the Rust:
+`mprotect_readwrite` (if the record is not `ReadWrite`) → `d.a.zeroize()` → `munlock` (if the record is `Locked`).
+(The Rust skips all three on an empty slice; the wrappers are no-ops on length 0, which is the same.)
+Neither the record nor the type is touched. -/
+def protZeroize (c : Cfg) (m : Mach) (v : PVec) (lm : LM) (pm : PM) : Mach × PVec :=
+  let m1 := protAtWipe c m v pm
+  let v1 := zeroizeV v
+  let m2 := if lm = .locked then dryocMunlock c m1 (ptr c v1) v1.len else m1
+  (m2, v1)
+
+/-- `Drop for Protected` (= `self.zeroize()`) with the RECORDED modes `lm`, `pm`, followed by the drop of the
+container (whose `deallocate` wipes the whole capacity and frees) -/
+def protDrop (c : Cfg) (m : Mach) (v : PVec) (lm : LM) (pm : PM) : Mach :=
+  let r := protZeroize c m v lm pm
+  plainDrop c r.1 r.2
+
+/-- drop of a region: a `Protected` consults its RECORD (`o.rcd`), never its type -/
 def objDrop (c : Cfg) (m : Mach) (o : Obj) : Mach :=
   match o.st with
   | .plain => plainDrop c m o.v
-  | .prot lm pm => protDrop c m o.v lm pm
+  | .prot _ _ => protDrop c m o.v o.rcd.1 o.rcd.2
 
-/-- `Protected<_, pm, Unlocked>::mlock()`: on refusal the consumed region is dropped -/
-def lockV (c : Cfg) (m : Mach) (v : PVec) (pm : PM) : Mach × Bool :=
+/-- `Protected<_, _, Unlocked>::mlock()` on a region whose record is `rec`: on refusal the consumed region is
+dropped (with its record as it is: `old.lm = Locked` is only written after a successful call) -/
+def lockV (c : Cfg) (m : Mach) (v : PVec) (rec : LM × PM) : Mach × Bool :=
   let r := dryocMlock c m (ptr c v) v.len
-  if r.2 then (r.1, true) else (protDrop c r.1 v .unlocked pm, false)
+  if r.2 then (r.1, true) else (protDrop c r.1 v rec.1 rec.2, false)
 
-/-- `ResizableBytes::resize` for `Locked<A>`; `none` = panic ("unable to lock on resize") -/
-def lockedResize (c : Cfg) (m : Mach) (v : PVec) (n : Nat) : Mach × Option PVec :=
-  let r := vecResize c m PVec.empty n
-  let l := lockV c r.1 r.2 .rw
+/-- `ResizableBytes::resize` for `Locked<A>` (`rec` = the record of the region being resized); `none` = panic
+("unable to lock on resize").  The new container is wrapped by `new_with` (record `recNew`) and locked; the old
+`InternalData` is swapped out and dropped with ITS record. -/
+def lockedResize (c : Cfg) (m : Mach) (v : PVec) (rec : LM × PM) (n : Nat) (b : UInt8 := 0) :
+    Mach × Option PVec :=
+  let r := vecResize c m PVec.empty n b
+  let l := lockV c r.1 r.2 recNew
   if l.2 then
     let nv := writeV r.2 (v.data.take n)
-    (protDrop c l.1 v .locked .rw, some nv)
+    (protDrop c l.1 v rec.1 rec.2, some nv)
   else (l.1, none)
 
 /-! ## harness state -/
@@ -291,10 +344,23 @@ def Res.toString : Res → String
   | .panic => "panic" | .segv => "segv" | .bad => "bad"
 
 inductive Op where
-  | new | fill (b : UInt8) | lock | unlock | ro | rw | na | clone | resize (n : Nat) | drop
+  | new | fill (b : UInt8) | lock | unlock | ro | rw | na | clone
+  /-- `ResizableBytes::resize(n, b)` (the harness always passes `b = 0`) -/
+  | resize (n : Nat) (b : UInt8 := 0)
+  | drop
   | fsl (n : Nat) | fsro (n : Nat) | newlocked | genlocked | newrolocked | genrolocked
   | failfrom (k : Int) | wprobe (off : Nat) | rprobe (off : Nat) | gprobe (fore : Bool)
   | wrap | bad
+  /-- `Zeroize::zeroize(&mut self)` on the live region (public, offered in EVERY type state) -/
+  | zeroize
+  /-- `slots[idx].clone_from(&slots[j])` (the default `Clone::clone_from`: `*self = src.clone()`) -/
+  | clonefrom (j : Nat)
+  /-- the region is dropped while a panic unwinds through its owner (same effect as `drop`) -/
+  | panicdrop
+  /-- `StackByteArray::<N>::from([0x5a; N]).mlock()` (fixed-length arrays only) -/
+  | stacklock
+  /-- serde decode of `n` bytes `0x5a` into the LOCKED form of the container (`json`: `visit_seq`; else bincode: `visit_bytes`) -/
+  | serde (json : Bool) (n : Nat)
   deriving DecidableEq, Repr
 
 structure Tok where
@@ -302,8 +368,8 @@ structure Tok where
   idx : Nat
   deriving DecidableEq, Repr
 
-def push (s : State) (m : Mach) (st : St) (v : PVec) (rnd : Bool) : State :=
-  ⟨m, s.slots ++ [⟨false, ⟨st, v⟩, rnd⟩]⟩
+def push (s : State) (m : Mach) (st : St) (v : PVec) (rnd : Bool) (rec : LM × PM := recNew) : State :=
+  ⟨m, s.slots ++ [⟨false, ⟨st, v, rec⟩, rnd⟩]⟩
 
 def setSlot (s : State) (m : Mach) (i : Nat) (sl : Slot) : State := ⟨m, s.slots.set i sl⟩
 
@@ -326,34 +392,40 @@ def scanAfter (k : Kernel) : Nat → Nat → List Char × Nat
       (ch :: r.1, r.2)
     else ([ch], p)
 
-/-- the lock transition of a slot: `pm` is the protect mode of the consumed region -/
-def doLock (c : Cfg) (s : State) (i : Nat) (sl : Slot) (pm : PM) : Res × State :=
-  let r := lockV c s.m sl.o.v pm
-  if r.2 then (.ok, setSlot s r.1 i { sl with o := ⟨.prot .locked pm, sl.o.v⟩ })
+/-- the lock transition of a slot: `pm` is the TYPE-LEVEL protect mode of the consumed region, `rec` its runtime
+record (`new_with`'s for a bare container).  On success the record gets `old.lm = Locked` (its `pm` part is not
+touched) and the type becomes `Protected<_, PM, Locked>`. -/
+def doLock (c : Cfg) (s : State) (i : Nat) (sl : Slot) (rec : LM × PM) (pm : PM) : Res × State :=
+  let r := lockV c s.m sl.o.v rec
+  if r.2 then (.ok, setSlot s r.1 i { sl with o := { sl.o with st := .prot .locked pm, rcd := (.locked, rec.2) } })
   else (.err, setSlot s r.1 i { sl with gone := true })
 
 /-- creation of a fresh locked region from a container `v` (`new_bytes().mlock()` …) -/
 def doNewLocked (c : Cfg) (s : State) (m : Mach) (v : PVec) (src : Option Bytes) (ro rnd : Bool) :
     Res × State :=
-  let r := lockV c m v .rw
+  -- `new_with(v).mlock()`: the record starts as `recNew`, `old.lm = Locked` after the call; `mprotect_readonly()`
+  -- then sets `old.pm = ReadOnly`
+  let r := lockV c m v recNew
   if r.2 then
     let v1 := match src with
       | some b => writeV v b
       | none => v
     let m1 := if ro then dryocMprotect c r.1 (ptr c v1) v1.len .r else r.1
-    (.ok, push s m1 (.prot .locked (if ro then .ro else .rw)) v1 (rnd && decide (0 < v1.len)))
+    (.ok, push s m1 (.prot .locked (if ro then .ro else .rw)) v1 (rnd && decide (0 < v1.len))
+            (.locked, if ro then .ro else .rw))
   else (.err, ⟨r.1, s.slots⟩)
 
 /-- `Clone for Locked<T>` / `LockedRO<T>` (only `HeapBytes` in the harness) -/
 def doCloneLocked (c : Cfg) (s : State) (sl : Slot) (ro : Bool) : Res × State :=
   -- `T::new_locked()` on an empty container never reaches the kernel
-  let r := lockedResize c s.m PVec.empty sl.o.v.len
+  -- (its record is `(Locked, ReadWrite)`, which is what the swapped-out empty `InternalData` is dropped with)
+  let r := lockedResize c s.m PVec.empty (.locked, .rw) sl.o.v.len
   match r.2 with
   | none => (.panic, ⟨r.1, s.slots⟩)
   | some nv =>
     let v1 := writeV nv sl.o.v.data
     let m1 := if ro then dryocMprotect c r.1 (ptr c v1) v1.len .r else r.1
-    (.ok, push s m1 (.prot .locked (if ro then .ro else .rw)) v1 sl.rnd)
+    (.ok, push s m1 (.prot .locked (if ro then .ro else .rw)) v1 sl.rnd (.locked, if ro then .ro else .rw))
 
 /-- `from_slice_into_locked` / `from_slice_into_readonly_locked` of `n` bytes `0x5a` -/
 def doFromSlice (c : Cfg) (s : State) (n : Nat) (ro : Bool) : Res × State :=
@@ -390,14 +462,14 @@ def opFill (s : State) (i : Nat) (b : UInt8) : Res × State :=
   withLive s i .na fun sl =>
     match sl.o.st with
     | .plain | .prot _ .rw =>
-      (.ok, setSlot s s.m i { sl with o := ⟨sl.o.st, fillV sl.o.v b⟩, rnd := false })
+      (.ok, setSlot s s.m i { sl with o := { sl.o with v := fillV sl.o.v b }, rnd := false })
     | _ => (.na, s)
 
 def opLock (c : Cfg) (s : State) (i : Nat) : Res × State :=
   withLive s i .na fun sl =>
     match sl.o.st with
-    | .plain => doLock c s i sl .rw
-    | .prot .unlocked pm => doLock c s i sl pm
+    | .plain => doLock c s i sl recNew .rw          -- `Lockable::mlock`: `new_with(self).mlock()`
+    | .prot .unlocked pm => doLock c s i sl sl.o.rcd pm
     | .prot .locked _ => (.na, s)
 
 def opUnlock (c : Cfg) (s : State) (i : Nat) : Res × State :=
@@ -405,8 +477,9 @@ def opUnlock (c : Cfg) (s : State) (i : Nat) : Res × State :=
     match sl.o.st with
     | .plain => (.na, s)
     | .prot _ pm =>
+      -- `dryoc_munlock(..)?; old.lm = Unlocked;`
       (.ok, setSlot s (dryocMunlock c s.m (ptr c sl.o.v) sl.o.v.len) i
-              { sl with o := ⟨.prot .unlocked pm, sl.o.v⟩ })
+              { sl with o := { sl.o with st := .prot .unlocked pm, rcd := (.unlocked, sl.o.rcd.2) } })
 
 /-- `mprotect_readonly` / `mprotect_readwrite` -/
 def opProtect (c : Cfg) (s : State) (i : Nat) (pm : PM) : Res × State :=
@@ -414,16 +487,18 @@ def opProtect (c : Cfg) (s : State) (i : Nat) (pm : PM) : Res × State :=
     match sl.o.st with
     | .plain => (.na, s)
     | .prot lm _ =>
+      -- `dryoc_mprotect_*(..)?; old.pm = …;`
       (.ok, setSlot s (dryocMprotect c s.m (ptr c sl.o.v) sl.o.v.len pm.perm) i
-              { sl with o := ⟨.prot lm pm, sl.o.v⟩ })
+              { sl with o := { sl.o with st := .prot lm pm, rcd := (sl.o.rcd.1, pm) } })
 
 /-- `mprotect_noaccess` (unlocked regions only) -/
 def opNa (c : Cfg) (s : State) (i : Nat) : Res × State :=
   withLive s i .na fun sl =>
     match sl.o.st with
     | .prot .unlocked _ =>
+      -- `dryoc_mprotect_noaccess(..)?; old.pm = NoAccess;`
       (.ok, setSlot s (dryocMprotect c s.m (ptr c sl.o.v) sl.o.v.len .none) i
-              { sl with o := ⟨.prot .unlocked .na, sl.o.v⟩ })
+              { sl with o := { sl.o with st := .prot .unlocked .na, rcd := (sl.o.rcd.1, .na) } })
     | _ => (.na, s)
 
 def opClone (c : Cfg) (s : State) (i : Nat) : Res × State :=
@@ -437,23 +512,26 @@ def opClone (c : Cfg) (s : State) (i : Nat) : Res × State :=
       (.ok, push s r.1 (.prot .unlocked .rw) r.2 sl.rnd)
     | .prot .unlocked .ro =>
       let r := vecClone c s.m sl.o.v
-      (.ok, push s (dryocMprotect c r.1 (ptr c r.2) r.2.len .r) (.prot .unlocked .ro) r.2 sl.rnd)
+      -- `Unlocked::new_with(a.clone()).mprotect_readonly()`
+      (.ok, push s (dryocMprotect c r.1 (ptr c r.2) r.2.len .r) (.prot .unlocked .ro) r.2 sl.rnd (.unlocked, .ro))
     | .prot .locked .rw => if c.isArr then (.na, s) else doCloneLocked c s sl false
     | .prot .locked .ro => if c.isArr then (.na, s) else doCloneLocked c s sl true
     | .prot _ .na => (.na, s)
 
-def opResize (c : Cfg) (s : State) (i : Nat) (n : Nat) : Res × State :=
+def opResize (c : Cfg) (s : State) (i : Nat) (n : Nat) (b : UInt8 := 0) : Res × State :=
   withLive s i .na fun sl =>
     if c.isArr then (.na, s) else
     match sl.o.st with
     | .plain | .prot .unlocked .rw =>
-      let r := vecResize c s.m sl.o.v n
-      (.ok, setSlot s r.1 i { sl with o := ⟨sl.o.st, r.2⟩, rnd := sl.rnd && decide (0 < n) })
+      let r := vecResize c s.m sl.o.v n b
+      (.ok, setSlot s r.1 i { sl with o := { sl.o with v := r.2 }, rnd := sl.rnd && decide (0 < n) })
     | .prot .locked .rw =>
-      let r := lockedResize c s.m sl.o.v n
+      let r := lockedResize c s.m sl.o.v sl.o.rcd n b
       match r.2 with
       | none => (.panic, ⟨r.1, s.slots⟩)
-      | some nv => (.ok, setSlot s r.1 i { sl with o := ⟨sl.o.st, nv⟩, rnd := sl.rnd && decide (0 < n) })
+      -- `mem::swap(&mut locked.i, &mut self.i)`: the slot now holds the NEW `InternalData`, record `(Locked, ReadWrite)`
+      | some nv => (.ok, setSlot s r.1 i { sl with o := { sl.o with v := nv, rcd := (.locked, .rw) },
+                                                   rnd := sl.rnd && decide (0 < n) })
     | _ => (.na, s)
 
 def opDrop (c : Cfg) (s : State) (i : Nat) : Res × State :=
@@ -483,6 +561,117 @@ def opGProbe (c : Cfg) (s : State) (i : Nat) (fore : Bool) : Res × State :=
         else (scanAfter s.m.k 40 (sl.o.v.base + 1 + pagesOf c.P sl.o.v.len)).2
       if accessible (permChar s.m.k pg) then (.ok, s) else (.segv, s)
 
+/-- `Zeroize::zeroize(&mut self)` on the region in slot `i`: a bare container zeroes its `len` bytes (derived
+`Zeroize`); a `Protected` runs `protZeroize` with its RECORD — pages read-write, bytes zeroed, pages unlocked —
+through `&mut self`: the value is NOT consumed, its TYPE does not change, and the Rust does not write the record
+either (`d.pm` / `d.lm` are only read).  Offered in every type state. -/
+def opZeroize (c : Cfg) (s : State) (i : Nat) : Res × State :=
+  withLive s i .na fun sl =>
+    match sl.o.st with
+    | .plain => (.ok, setSlot s s.m i { sl with o := { sl.o with v := zeroizeV sl.o.v }, rnd := false })
+    | .prot _ _ =>
+      let r := protZeroize c s.m sl.o.v sl.o.rcd.1 sl.o.rcd.2
+      (.ok, setSlot s r.1 i { sl with o := { sl.o with v := r.2 }, rnd := false })
+
+/-- `Clone for Locked<T>` / `LockedRO<T>` as a function of the source object (same steps as `doCloneLocked`);
+`none` = the clone panicked -/
+def cloneLockedObj (c : Cfg) (m : Mach) (o : Obj) (ro : Bool) : Mach × Option Obj :=
+  let r := lockedResize c m PVec.empty (.locked, .rw) o.v.len
+  match r.2 with
+  | none => (r.1, none)
+  | some nv =>
+    let v1 := writeV nv o.v.data
+    let m1 := if ro then dryocMprotect c r.1 (ptr c v1) v1.len .r else r.1
+    (m1, some ⟨.prot .locked (if ro then .ro else .rw), v1, (.locked, if ro then .ro else .rw)⟩)
+
+/-- `Clone::clone` of a region, state by state (the same table as `opClone`): `none` = this type state has no
+`Clone`; `some (m, none)` = the clone panicked; `some (m, some o)` = the new object -/
+def cloneObj (c : Cfg) (m : Mach) (o : Obj) : Option (Mach × Option Obj) :=
+  match o.st with
+  | .plain => let r := vecClone c m o.v; some (r.1, some ⟨.plain, r.2, recNew⟩)
+  | .prot .unlocked .rw => let r := vecClone c m o.v; some (r.1, some ⟨.prot .unlocked .rw, r.2, recNew⟩)
+  | .prot .unlocked .ro =>
+    let r := vecClone c m o.v
+    some (dryocMprotect c r.1 (ptr c r.2) r.2.len .r, some ⟨.prot .unlocked .ro, r.2, (.unlocked, .ro)⟩)
+  | .prot .locked .rw => if c.isArr then none else some (cloneLockedObj c m o false)
+  | .prot .locked .ro => if c.isArr then none else some (cloneLockedObj c m o true)
+  | .prot _ .na => none
+
+def isLockedSt : St → Bool
+  | .prot .locked _ => true
+  | _ => false
+
+/-- `clonefrom:<j>@<i>` — `slots[i].clone_from(&slots[j])`, the DEFAULT `Clone::clone_from`, i.e.
+`*self = src.clone()`: clone `j`, drop the old value of `i`, move the clone in.  `noslot` if either index is out of
+range or `j = i`; `n/a` if the two slots are not live regions in the SAME type state, or that state has no `Clone`.
+For the two locked forms the harness first asks "is there a `Clone`?" by evaluating `A::clone_locked(src)`: a
+temporary clone that lives until the end of the statement, i.e. is dropped AFTER the `clone_from` (or by the
+unwinding if that panics). -/
+def opCloneFrom (c : Cfg) (s : State) (i j : Nat) : Res × State :=
+  if j = i then (.noslot, s) else
+  match s.slots[i]?, s.slots[j]? with
+  | some d, some src =>
+    if d.gone || src.gone || decide (d.o.st ≠ src.o.st) then (.na, s) else
+    if isLockedSt src.o.st then
+      match cloneObj c s.m src.o with
+      | none => (.na, s)
+      | some (m1, none) => (.panic, ⟨m1, s.slots⟩)
+      | some (m1, some tmp) =>
+        match cloneObj c m1 src.o with
+        | none => (.na, ⟨objDrop c m1 tmp, s.slots⟩)            -- (never: same state as the probe)
+        | some (m2, none) => (.panic, ⟨objDrop c m2 tmp, s.slots⟩)
+        | some (m2, some o) =>
+          (.ok, setSlot s (objDrop c (objDrop c m2 d.o) tmp) i { d with o := o, rnd := src.rnd })
+    else
+      match cloneObj c s.m src.o with
+      | none => (.na, s)
+      | some (m1, none) => (.panic, ⟨m1, s.slots⟩)
+      | some (m1, some o) => (.ok, setSlot s (objDrop c m1 d.o) i { d with o := o, rnd := src.rnd })
+  | _, _ => (.noslot, s)
+
+/-- `StackByteArray::<N>::from([0x5a; N]).mlock()`: `into()` builds a `HeapByteArray` (`new_byte_array`,
+`copy_from_slice`), `new_with(..)` wraps it, `.mlock()` → `Result`.  Only fixed-length arrays have it. -/
+def opStackLock (c : Cfg) (s : State) : Res × State :=
+  if c.isArr then
+    let r := newBytes c s.m
+    doNewLocked c s r.1 (writeV r.2 (List.replicate c.n 0x5a)) none false false
+  else (.na, s)
+
+/-- `arr[idx] = elem` -/
+def setV (v : PVec) (i : Nat) (b : UInt8) : PVec := { v with buf := v.buf.set i b }
+
+/-- the loop of `visit_seq` for `HeapBytes` / `LockedBytes`, `k` more elements `b` to come:
+`let idx = arr.len(); arr.resize(idx + 1, 0); arr[idx] = elem;` -/
+def seqFill (c : Cfg) (b : UInt8) : Nat → Mach × PVec → Mach × PVec
+  | 0, r => r
+  | k + 1, r =>
+    let r1 := vecResize c r.1 r.2 (r.2.len + 1)
+    seqFill c b k (r1.1, setV r1.2 r.2.len b)
+
+/-- `Deserialize for Locked<HeapByteArray<N>>`, `visit_seq` (JSON): `new_locked()` FIRST (a refusal is the error),
+then the elements are written one by one; a wrong element count is an error too, and the locked array is dropped -/
+def doSerdeArrJson (c : Cfg) (s : State) (n : Nat) : Res × State :=
+  let r := newBytes c s.m
+  let l := lockV c r.1 r.2 recNew
+  if l.2 then
+    let v1 := writeV r.2 (List.replicate (min n c.n) 0x5a)
+    if n = c.n then (.ok, push s l.1 (.prot .locked .rw) v1 false (.locked, .rw))
+    else (.err, ⟨protDrop c l.1 v1 .locked .rw, s.slots⟩)
+  else (.err, ⟨l.1, s.slots⟩)
+
+/-- `serde:<json|bincode>:<n>` — decode `n` bytes `0x5a` into the locked form of the container (`bytes_serde.rs`):
+* `LockedBytes`, JSON (`visit_seq`): `HeapBytes::default()`, grown byte by byte, then `arr.mlock()`;
+* `LockedBytes`, bincode (`visit_bytes`): `HeapBytes::from_slice_into_locked(v)`;
+* `Locked<HeapByteArray<N>>`, JSON: `doSerdeArrJson`;
+* `Locked<HeapByteArray<N>>`, bincode: length check, then `HeapByteArray::from_slice_into_locked(v)`. -/
+def opSerde (c : Cfg) (s : State) (json : Bool) (n : Nat) : Res × State :=
+  if json then
+    if c.isArr then doSerdeArrJson c s n
+    else
+      let r := seqFill c 0x5a n (s.m, PVec.empty)
+      doNewLocked c s r.1 r.2 none false false
+  else doFromSlice c s n false
+
 /-- a token on a state whose release log has been reset -/
 def stepCore (c : Cfg) (s : State) (t : Tok) : Res × State :=
   let i := t.idx
@@ -498,7 +687,7 @@ def stepCore (c : Cfg) (s : State) (t : Tok) : Res × State :=
   | .rw => opProtect c s i .rw
   | .na => opNa c s i
   | .clone => opClone c s i
-  | .resize n => opResize c s i n
+  | .resize n b => opResize c s i n b
   | .drop => opDrop c s i
   | .fsl n => doFromSlice c s n false
   | .fsro n => doFromSlice c s n true
@@ -509,6 +698,11 @@ def stepCore (c : Cfg) (s : State) (t : Tok) : Res × State :=
   | .wprobe off => opWProbe c s i off
   | .rprobe off => opRProbe c s i off
   | .gprobe fore => opGProbe c s i fore
+  | .zeroize => opZeroize c s i
+  | .clonefrom j => opCloneFrom c s i j
+  | .panicdrop => opDrop c s i
+  | .stacklock => opStackLock c s
+  | .serde json n => opSerde c s json n
 
 def resetRel (s : State) : State := ⟨{ s.m with rel := [] }, s.slots⟩
 
@@ -624,21 +818,29 @@ def parseTok (tok : String) : Tok :=
     if name == "new" then .new
     else if name == "wrap" then .wrap
     else if name == "fill" then .fill ((parseHexU8 arg).getD 0xa5)
-    -- an explicit `Zeroize::zeroize()` on a plain / unlocked read-write container (the only states in which the harness
-    -- issues it) zeroes the `len` bytes and keeps the length: the same state change as `fill:00`.
-    -- VALID ONLY ON PLAIN / UNLOCKED READ-WRITE SLOTS: `opFill` also accepts a LOCKED read-write region, where the real
-    -- `Protected::zeroize` would additionally `munlock` the pages (and `fill` does not); the runner (`ops_prot.rs`)
-    -- answers `n/a` for `zeroize` on every other type state and the generators never issue it there, so the two
-    -- readings of the token agree on everything the harness does.  (No separate `Op.zeroize`: the theorems
-    -- of C14/C15/C19 speak about `Op.fill`; nothing is claimed about `zeroize` on a locked region.)
-    else if name == "zeroize" then .fill 0
+    -- an explicit `Zeroize::zeroize()` on the live region.  The model gives it its real effect in EVERY type state
+    -- (`opZeroize`); the runner (`ops_prot.rs`) issues it on plain / unlocked read-write slots only and answers
+    -- `n/a` elsewhere; on those slots it is the same state change as `fill:00` (`C14.zeroize_eq_fill_zero`).
+    else if name == "zeroize" then .zeroize
+    else if name == "clonefrom" then .clonefrom nat
+    else if name == "panicdrop" then .panicdrop
+    else if name == "stacklock" then .stacklock
+    else if name == "serde" then
+      -- `arg.split_once(':').unwrap_or(("json", "0"))`; any format other than `json` is decoded with bincode
+      match splitOnce arg ':' with
+      | some (f, n) => .serde (f == "json") ((parseNat n).getD 0)
+      | none => .serde true 0
     else if name == "lock" then .lock
     else if name == "unlock" then .unlock
     else if name == "ro" then .ro
     else if name == "rw" then .rw
     else if name == "na" then .na
     else if name == "clone" then .clone
-    else if name == "resize" then .resize nat
+    else if name == "resize" then
+      -- `resize:<n>` (fill byte 0, what the harness does) or, model only, `resize:<n>:<hh>`
+      match splitOnce arg ':' with
+      | some (n, h) => .resize ((parseNat n).getD 0) ((parseHexU8 h).getD 0)
+      | none => .resize nat
     else if name == "drop" then .drop
     else if name == "fsl" then .fsl nat
     else if name == "fsro" then .fsro nat
